@@ -54,8 +54,20 @@ let timed inp impl =
     let bound = if rtu then tm_rtu_bound k Z0 (tm_req_len cfg o) else tm_mbap_bound k Z0 in
     let finish = int_of_z r.tmc_finish and b = int_of_z bound in
     let verdict = if finish <= b then "intime" else "model-late" in
-    let m = Printf.sprintf "%s %s %d" (result_str r.tmc_res) verdict b in
-    (m, if m = impl && finish <= b then "1" else "0")
+    let m3 = Printf.sprintf "%s %s %d" (result_str r.tmc_res) verdict b in
+    (* the implementation also reports its measured duration (us): it must not
+       exceed the finish time the timed model predicts for this very peer
+       behaviour by more than the scheduling slack (150 ms) *)
+    let slack_us = 150_000 in
+    let (impl3, dur_ok, dur_tok) =
+      match String.split_on_char ' ' impl with
+      | [a; b'; c; d] when String.length d > 4 && String.sub d 0 4 = "dur=" ->
+        let us = int_of_string (String.sub d 4 (String.length d - 4)) in
+        (a ^ " " ^ b' ^ " " ^ c, us <= (finish / 1000) + slack_us, d)
+      | _ -> (impl, true, "") in
+    if dur_tok = "" then (m3, if m3 = impl && finish <= b then "1" else "0")
+    else if dur_ok then (m3 ^ " " ^ dur_tok, if m3 = impl3 && finish <= b then "1" else "0")
+    else (Printf.sprintf "%s dur<=%dus" m3 ((finish / 1000) + slack_us), "0")
   | _ -> failwith "timed: bad input"
 
 let () = Registry.register "timed" timed
